@@ -193,6 +193,15 @@ func randType(r *vh.Rng, depth int) reflect.Type {
 			}
 			return reflect.MapOf(tStr, st)
 		}
+		if r.Chance(1, 4) {
+			// array-valued maps: an existing entry is fetched and updated in place (a shorter stream
+			// array / a partial struct element leaves the rest of the entry as it was)
+			e := tInt
+			if r.Bool() {
+				e = reflect.StructOf([]reflect.StructField{{Name: "A", Type: tInt}, {Name: "B", Type: tInt}})
+			}
+			return reflect.MapOf(tStr, reflect.ArrayOf(2+r.Intn(2), e))
+		}
 		return reflect.MapOf(tStr, randType(r, depth-1))
 	default:
 		n := 1 + r.Intn(4)
@@ -831,6 +840,106 @@ func bytesStream(r *vh.Rng, n int, sum *vh.Summary) {
 	}
 }
 
+// namedBytesStream: named byte-slice types (type nb []byte) as top-level destination, struct field
+// and map value, pre-populated with MORE, equal and fewer bytes than the stream carries: the
+// destination ends up holding exactly the stream's bytes (deterministic sweep).
+type nb []byte
+type nbBox struct {
+	N nb
+	P []byte
+	M map[string]nb
+}
+
+func namedBytesStream(sum *vh.Summary) {
+	dsts := [][]byte{[]byte("abcdef"), []byte("ab"), []byte("a"), {}, nil}
+	srcs := [][]byte{[]byte("xy"), []byte("wxyz123"), {}, nil}
+	cp := func(b []byte) []byte {
+		if b == nil {
+			return nil
+		}
+		return append(make([]byte, 0, len(b)+2), b...)
+	}
+	for _, format := range vh.Formats {
+		for _, rbs := range []int{-1, 0, 16} { // -1: from []byte
+			o := vh.Opts{}
+			if rbs > 0 {
+				o["ReaderBufferSize"] = rbs
+			}
+			h := vh.NewHandle(format, o)
+			dec := func(bs []byte, v interface{}) error {
+				if rbs < 0 {
+					return codec.NewDecoderBytes(bs, h).Decode(v)
+				}
+				return codec.NewDecoder(plainReader{bytes.NewReader(bs)}, h).Decode(v)
+			}
+			for _, d := range dsts {
+				for _, sv := range srcs {
+					cj := map[string]interface{}{"format": format, "ReaderBufferSize": rbs, "dst": fmt.Sprintf("%q", d), "src": fmt.Sprintf("%q", sv), "src_nil": sv == nil}
+					// top level
+					var bs []byte
+					codec.NewEncoderBytes(&bs, h).Encode(nb(sv))
+					top := nb(cp(d))
+					err := dec(bs, &top)
+					if err != nil || !vh.DeepEq(reflect.ValueOf([]byte(top)), reflect.ValueOf(sv), vh.EqOpts{}) {
+						cj["got"] = fmt.Sprintf("%q", []byte(top))
+						sum.FailC("bytes", "bytes:named-type:top-level", "a named byte-slice destination does not end up holding exactly the stream's bytes", cj)
+					}
+					// struct field and map value
+					src := nbBox{N: nb(sv), P: sv, M: map[string]nb{"k": nb(sv)}}
+					bs = nil
+					codec.NewEncoderBytes(&bs, h).Encode(&src)
+					box := nbBox{N: nb(cp(d)), P: cp(d), M: map[string]nb{"k": nb(cp(d)), "z": nb("keep")}}
+					err = dec(bs, &box)
+					want := nbBox{N: nb(sv), P: sv, M: map[string]nb{"k": nb(sv), "z": nb("keep")}}
+					if err != nil || !vh.DeepEq(reflect.ValueOf(box), reflect.ValueOf(want), vh.EqOpts{}) {
+						cj["got"] = fmt.Sprintf("%q %q %q", []byte(box.N), box.P, box.M)
+						sum.FailC("bytes", "bytes:named-type:field-or-map-value", "a named byte-slice field / map value does not end up holding exactly the stream's bytes", cj)
+					}
+					sum.Count("bytes.named."+format, fmt.Sprintf("named/%s/%d/%d/%d", format, rbs, len(d), len(sv)))
+				}
+			}
+		}
+	}
+}
+
+// arrayMapSweep: array-valued map entries are updated in place (deterministic shapes)
+func arrayMapSweep(sum *vh.Summary) {
+	type pt struct{ X, Y int }
+	for _, format := range vh.Formats {
+		for _, mvr := range []bool{false, true} {
+			h := vh.NewHandle(format, vh.Opts{"MapValueReset": mvr})
+			cj := map[string]interface{}{"format": format, "MapValueReset": mvr}
+			var bs []byte
+			codec.NewEncoderBytes(&bs, h).Encode(map[string]interface{}{"a": []int{9}, "n": []int{7}})
+			m := map[string][3]int{"a": {1, 2, 3}, "z": {4, 5, 6}}
+			want := map[string][3]int{"a": {9, 2, 3}, "z": {4, 5, 6}, "n": {7, 0, 0}}
+			if mvr {
+				want["a"] = [3]int{9, 0, 0}
+			}
+			for pass := 0; pass < 2; pass++ { // decode twice
+				if err := codec.NewDecoderBytes(bs, h).Decode(&m); err != nil || !reflect.DeepEqual(m, want) {
+					cj["got"], cj["pass"] = fmt.Sprint(m), pass
+					sum.FailC("merge", "keep:array-valued-map-entry", "a shorter stream array into an array-valued map entry does not leave the rest of the entry untouched", cj)
+				}
+			}
+			bs = nil
+			codec.NewEncoderBytes(&bs, h).Encode(map[string]interface{}{"a": []interface{}{map[string]int{"Y": 8}}})
+			m2 := map[string][2]pt{"a": {{1, 2}, {3, 4}}}
+			want2 := map[string][2]pt{"a": {{1, 8}, {3, 4}}}
+			if mvr {
+				want2["a"] = [2]pt{{0, 8}, {}}
+			}
+			for pass := 0; pass < 2; pass++ {
+				if err := codec.NewDecoderBytes(bs, h).Decode(&m2); err != nil || !reflect.DeepEqual(m2, want2) {
+					cj["got"], cj["pass"] = fmt.Sprint(m2), pass
+					sum.FailC("merge", "keep:array-of-structs-map-entry", "a partial element of an array-valued map entry does not leave the rest untouched", cj)
+				}
+			}
+			sum.Count("merge.arraymap."+format, fmt.Sprintf("arraymap/%s/%v", format, mvr))
+		}
+	}
+}
+
 func main() {
 	n := flag.Int("n", 1500, "cases")
 	cases := flag.String("cases", "/verif/build/c19/cases", "directory for the model case files")
@@ -942,5 +1051,7 @@ func main() {
 	}
 	cv.Close()
 	bytesStream(r.Fork(), *n/4, sum)
+	namedBytesStream(sum)
+	arrayMapSweep(sum)
 	sum.Print()
 }
